@@ -40,7 +40,7 @@ import tempfile
 from harness import common
 from harness.common import Model, s2l
 
-FACTS = ("tables", "parser", "c04")
+FACTS = ("tables", "parser", "c02", "c04")
 
 RULE = ("per format (properties, dtd, ini mergeable; ftl, po, android strings.xml skip-only; inc "
         "copy-only; txt unknown): seeded clean references (layout: comments, blank lines, final "
@@ -65,6 +65,7 @@ SIG_D3 = "properties-kept-text-ends-in-odd-backslashes"
 SIG_D4 = "android-skip-without-spans"
 SIG_D9 = "android-two-skips-typeerror"
 SIG_INI = "ini-junk-after-section-joins-comment-line"
+SIG_REFCONT = "properties-reference-value-ends-in-continuation"
 
 WORDS = ["alpha", "beta", "gamma", "delta", "uno", "zwei", "trois", "x", "Zed", "café",
          "あい", "it", "is", "ok"]
@@ -761,6 +762,16 @@ def known_condition(r):
             if is_junk(s) and 0 < a < b and c[a - 1] != "\n" and c[b - 1] == "\n" and c[b:b + 1] in (";", "#"):
                 return SIG_INI
     if r.fmt == "properties" and r.exc is None and r.action and r.action[0] in (4, 5):
+        # a reference entity whose Entity.all ends in a newline (value continued into an
+        # empty last line) is appended in front of another one
+        try:
+            order = sorted((s for s in skips if not is_junk(s)), key=lambda s: s.span[0])
+            alls = [call["ref_entities"][k].all for k in call["missing"]] + \
+                   [call["ref_entities"][s.key].all for s in order]
+        except Exception:  # noqa
+            alls = []
+        if any(a.endswith("\\\n") for a in alls[:-1]):
+            return SIG_REFCONT
         writes = [t[1] for t in r.trace if t[0] == "write"]
         if r.action[0] == 4:
             kept = "".join(writes[:-1]) if (call["missing"] or any(not is_junk(s) for s in skips)) \
@@ -1503,6 +1514,21 @@ def suite_findings(chk, env, model):
         if len(r.col.errors()) != 2 or len(r.calls[-1]["skips"]) != 1:
             chk.fail("two-errors-stream-misses-its-condition", {"ref": ref_text, "l10n": l10n_text},
                      {"errors": r.col.errors(), "skips": len(r.calls[-1]["skips"])})
+    # properties: a reference value that ends in a continuation into an empty line; its
+    # Entity.all ends in a newline, nothing is added, the next appended entity is swallowed
+    for i in range(n):
+        recs, used = gen_reference(rng, "properties")
+        while len(recs) < 2:
+            recs, used = gen_reference(rng, "properties")
+        j = rng.randint(0, len(recs) - 2)
+        recs[j] = dict(recs[j], val=words(rng, 1, 2) + "\\\n", spec=None)
+        ref_text = render(rng, "properties", [("rec", r_, "same") for r_ in recs], True)
+        keep = [r_ for k, r_ in enumerate(recs) if k not in (j, j + 1) and rng.random() < 0.6]
+        items = [("rec", dict(r_, comment=None, val=" ".join(r_["spec"][1]) if r_["spec"] else words(rng, 1, 2)),
+                  "revalue") for r_ in keep]
+        items = [it for it in items if not it[1]["val"].endswith("\n")]
+        go("properties", ref_text, render(rng, "properties", items, True) if items else "",
+           "reference-continuation", SIG_REFCONT)
     # ini: junk that starts behind a section header on the same line and ends with the line
     # break; the comment line that follows is glued to the section header
     for i in range(n):
